@@ -7,6 +7,18 @@ ALL = ["C%02d" % i for i in range(1, 21)]
 
 # id -> (technique, level text, level note, design section)
 CLAIMED = {
+ "C01": ("stateful property-based testing: generated request histories on a real channel (API level), ghost ledger of disclosed secrets vs independently verified accepted validations, restarts injected",
+         "Held-on-N-histories exploration of the holder revocation state machine against an explicit ledger oracle; not a proof.",
+         "Trusted: LDK commitment/HTLC transaction builders used for the reference transactions, libsecp256k1 verification.",
+         "C01"),
+ "C02": ("stateful property-based testing: same machine with signing requests, ledger sets Signed/Revoked must stay disjoint and Revoked frozen after first signature",
+         "Held-on-N-histories exploration; the one genuine defect found (revoke after sign with a pre-validated successor) is repaired by a fix: commit and kept as a regression replay.",
+         "Trusted: LDK builders for signature attribution; mutual-close signatures are outside Signed.",
+         "C02"),
+ "C03": ("stateful property-based testing of sign/revoke interleavings with two counterparty seeds + model-based testing of the compact secret store against an independent BOLT-3 derivation",
+         "Held-on-N-histories exploration with ledger invariants (a),(b),(c) and a reference model of the secret store.",
+         "Trusted: LDK builders; store sequences limited to shapes the channel can feed (contiguous indices, right-secret retries).",
+         "C03"),
  "C16": ("stateful property-based testing: differential (memory vs redb) + BTreeMap reference model; transaction invariants for the cloud store",
          "Generated op sequences over small key/version/value alphabets are executed on the real MemoryKVVStore, RedbKVVStore (with real reopen) and CloudKVVStore and compared step by step with a reference model; held-on-N-cases exploration, not a proof.",
          "Trusted: redb itself, tmpfs for the database files; batches with duplicate keys, clear_database and reset_versions are outside the domain.",
